@@ -138,17 +138,18 @@ func (b *Bus) EaDump(start uint32, end uint32, data []byte) int {
 	// move segment by segment:
 	for k := startK; k <= endK; k++ {
 		s := b.segment[k]
+		// the first segment may be entered in its middle when start is not 16-byte aligned:
 		if s == nil {
-			// skip the whole segment:
-			for n := 0; a <= end && n < 16; n++ {
+			// skip the rest of the segment:
+			for n := a & 0xf; a <= end && n < 16; n++ {
 				a++
 				i++
 			}
 			continue
 		}
 
-		// copy the whole segment:
-		for n := 0; a <= end && n < 16; n++ {
+		// copy the rest of the segment:
+		for n := a & 0xf; a <= end && n < 16; n++ {
 			data[i] = s.Read(a)
 			a++
 			i++
